@@ -29,6 +29,8 @@ type Msg struct {
 	// Contribution payload (mutable by interceptors).
 	Secret *bls.SecretKey
 	VVec   []bls.PublicKey
+	// Again (with DeliverThenAgain) changes the copy of the contribution that is delivered a second time.
+	Again func(secret *bls.SecretKey, vvec *[]bls.PublicKey)
 }
 
 func (m Msg) String() string { return fmt.Sprintf("#%d %s %d->%d", m.Seq, m.Kind, m.From, m.To) }
@@ -45,6 +47,9 @@ const (
 	DeliverThenError
 	// DeliverTwice delivers the message twice (the sender sees the second reply).
 	DeliverTwice
+	// DeliverThenAgain delivers a contribution and then a second copy changed by Msg.Again (the sender sees the second
+	// reply).
+	DeliverThenAgain
 )
 
 // Cluster is a set of real Dirk instances wired through their real receiver handlers.
@@ -349,6 +354,20 @@ func (s *clusterSender) SendContribution(_ context.Context, peer *core.Endpoint,
 	res, err := dst.Receiver.Contribute(s.ctx(), wire)
 	if act == DeliverTwice {
 		res, err = dst.Receiver.Contribute(s.ctx(), wire)
+	}
+	if act == DeliverThenAgain && m.Again != nil {
+		sec2 := *m.Secret
+		vv2 := append([]bls.PublicKey{}, m.VVec...)
+		m.Again(&sec2, &vv2)
+		req2 := &pb.ContributeRequest{Account: account, Secret: sec2.Serialize()}
+		for i := range vv2 {
+			req2.VerificationVector = append(req2.VerificationVector, vv2[i].Serialize())
+		}
+		wire2 := &pb.ContributeRequest{}
+		if err := roundTrip(req2, wire2); err != nil {
+			return bls.SecretKey{}, nil, err
+		}
+		res, err = dst.Receiver.Contribute(s.ctx(), wire2)
 	}
 	if act == DeliverThenError {
 		return bls.SecretKey{}, nil, errors.New("reply lost")
